@@ -265,6 +265,47 @@ def h_matrix_transformer(ex, kind, fmt, nr, nc, unsorted, explicit_zero):
     return None
 
 
+# ------------------------------------------------------------------ determinism under an integer random_state
+def h_random_state(ex, nr, nc):
+    """CountFeatureCompressionTransformer: whatever consumes randomness must be seeded by the integer the user gave
+    (the integer itself or check_random_state(integer)), for EVERY integer -- 0 included"""
+    from symx.shims import sklearn_shim
+    cfc = L("transformers.count_feature_compression")
+    seen = []
+
+    def randomized_svd(M, n_components, n_iter=5, random_state=None, **kw):
+        seen.append(random_state)
+        r, c = M.shape
+        k = int(n_components)
+        U = np.array([[fresh_real("u%d_%d" % (i, j)) for j in range(k)] for i in range(r)], dtype=np.float64)
+        S = np.array([fresh_real("s%d" % j, 1) for j in range(k)], dtype=np.float64)
+        V = np.array([[fresh_real("vt%d_%d" % (j, i)) for i in range(c)] for j in range(k)], dtype=np.float64)
+        return U, S, V
+    cfc.randomized_svd = randomized_svd
+    seed = fresh_int("random_state", 0, 2 ** 31 - 1)
+    register("random_state", seed)
+    vals = [[fresh_real("x%d_%d" % (i, j), 0) for j in range(nc)] for i in range(nr)]
+    for row in vals:
+        assume(sum(row, Q(0)) > 0)
+    register("X", vals)
+    X = sp.csr_matrix(np.array(vals, dtype=np.float64))
+    est = cfc.CountFeatureCompressionTransformer(n_components=1, n_iter=1, random_state=seed)
+    call(est.fit_transform, X)
+    check("the randomised SVD is reached exactly once", len(seen) == 1)
+    if len(seen) != 1:
+        return None
+    rs = seen[0]
+    if isinstance(rs, sklearn_shim.RNG):
+        lineage = rs.lineage
+        ok = isinstance(lineage, tuple) and lineage[0] == "check_random_state" and is_sym(lineage[1]) and bool(lineage[1] == seed) or \
+            (isinstance(lineage, tuple) and lineage[0] == "check_random_state" and not is_sym(lineage[1]) and bool(seed == lineage[1]))
+        check("the random stream is seeded by the user's integer random_state", ok, detail={"lineage": repr(lineage)})
+    else:
+        check("the random stream is seeded by the user's integer random_state", (rs is not None) and is_sym(rs) and (rs == seed),
+              detail={"random_state passed on": repr(rs)})
+    return None
+
+
 def cases(tier):
     cs = []
     if tier == "quick":
@@ -288,6 +329,11 @@ def cases(tier):
         cs.append(Case("history[%s,%s]" % (kind, shapes), h_history, dict(kind=kind, shapes=shapes), replay="C13:replay_history",
                        bounds={"estimator": kind, "shapes (fit, transform 1, transform 2)": shapes, "tokens / characters / labels": "unconstrained integers"},
                        functions=["<estimator>.fit", "<estimator>.transform", "preprocessing.preprocess_*"], shards=8 if n >= 6 else 1, shard_depth=8))
+    for nr, nc in ([(2, 2)] if tier == "quick" else [(2, 2), (3, 2), (2, 3)]):
+        cs.append(Case("random_state[count_feature_compression,%dx%d]" % (nr, nc), h_random_state, dict(nr=nr, nc=nc), replay="C13:replay_random_state",
+                       stubs=["randomized_svd -> records the random_state it is given, returns arbitrary factors"],
+                       functions=["transformers.count_feature_compression.CountFeatureCompressionTransformer.fit_transform"],
+                       bounds={"matrix": [nr, nc], "random_state": "symbolic integer 0 .. 2^31 - 1"}))
     # labelled trees with LIL / CSR adjacency input: fit and transform must not edit the caller's matrices
     cs += [c for c in C15_tree.cases(tier) if ",lil" in c.name or ("prune=1" in c.name and "after" in c.name)]
     for k, f, nr, nc, u, z in M:
